@@ -154,21 +154,31 @@ def encodeEvents : List WEvent → Bytes
 def wpEncode (tags flds : Bytes) (evs : List WEvent) : Bytes :=
   marshalBytes tags ++ (marshalBytes flds ++ (be (evs.length % two32) 4 ++ encodeEvents evs))
 
+/-- `api/rpc/encoder.go: unmarshalString` (since /repo commit dbbc1a7; regenerated fact `rpcStringsLengthGuarded`): a
+length prefix larger than the bytes left is an error *before* the library is called — so the library's slice panic for
+`uln ≥ 2⁶³ − idx` is unreachable from the RPC decoders. Without the guard it is `xbinary.UnmarshalString`. -/
+def rpcString (buf : Bytes) : Out (Nat × Bytes) :=
+  if Generated.C01.rpcStringsLengthGuarded then
+    match uvarint buf with
+    | .ok (idx, uln) => if uln > buf.length - idx then .err else bytesField buf
+    | _ => bytesField buf
+  else bytesField buf
+
 /-- `unmarshalLogEvent`: (bytes read, event) -/
 def decodeEvent (buf : Bytes) : Out (Nat × WEvent) :=
   match u64 buf with
   | .err => .err
   | .panic => .panic
   | .ok (_, ts) =>
-    match bytesField (buf.drop 8) with
+    match rpcString (buf.drop 8) with
     | .err => .err
     | .panic => .panic
     | .ok (a, msg) =>
-      match bytesField (buf.drop (8 + a)) with
+      match rpcString (buf.drop (8 + a)) with
       | .err => .err
       | .panic => .panic
       | .ok (b, tags) =>
-        match bytesField (buf.drop (8 + a + b)) with
+        match rpcString (buf.drop (8 + a + b)) with
         | .err => .err
         | .panic => .panic
         | .ok (c, flds) => .ok (8 + a + b + c, ⟨ts, msg, tags, flds⟩)
@@ -194,11 +204,11 @@ deriving Repr
 
 /-- `wpIterator.init` -/
 def wpInit (parseKV : Bytes → Option Bytes) (buf : Bytes) : Out WpIter :=
-  match bytesField buf with
+  match rpcString buf with
   | .err => .err
   | .panic => .panic
   | .ok (i1, tags) =>
-    match bytesField (buf.drop i1) with
+    match rpcString (buf.drop i1) with
     | .err => .err
     | .panic => .panic
     | .ok (i2, flds) =>
